@@ -179,7 +179,16 @@ type PureDecl struct {
 	Text   string
 }
 
+// TagDecl: a struct field's tag is part of the specification (validation rules interpreted by a dependency).
+type TagDecl struct {
+	Path   string // pkg.Type.Field
+	Serves []string
+	Want   string
+	Line   int
+}
+
 type SpecFile struct {
+	Tags    []TagDecl
 	File    string
 	PkgName string
 	Ghosts  []GhostDecl
@@ -645,7 +654,7 @@ func parseExprString(s string) (e Expr, err error) {
 // ---------------------------------------------------------------------------
 // Contract file reader
 
-var topKeywords = map[string]bool{"opaque": true, "deterministic": true, "func": true, "ghost": true, "ufunc": true, "pure": true, "pred": true, "axiom": true, "lemma": true, "type": true, "extern": true}
+var topKeywords = map[string]bool{"opaque": true, "deterministic": true, "func": true, "ghost": true, "ufunc": true, "pure": true, "pred": true, "axiom": true, "lemma": true, "type": true, "extern": true, "tag": true}
 var clauseKeywords = map[string]bool{"unfold": true, "fold": true, "owns": true, "reveal": true, "cases": true, "dispatch": true, "requires": true, "ensures": true, "modifies": true, "serves": true, "loop": true, "invariant": true,
 	"at": true, "after": true, "assert": true, "assume": true, "flag": true, "set": true, "uses": true}
 
@@ -875,6 +884,18 @@ func readSpecFile(path string, isSpec bool) (*SpecFile, error) {
 				return nil, perr(g, err)
 			}
 			sf.Pures = append(sf.Pures, pd)
+			cur = nil
+		case "tag":
+			// tag pkg.Type.Field serves Cxx = <exact struct tag>   (syntactic obligation: the field's tag is this string)
+			i := strings.Index(rest, "=")
+			if i < 0 {
+				return nil, perr(g, fmt.Errorf("tag: expected 'tag pkg.Type.Field serves Cxx = <tag>'"))
+			}
+			f := strings.Fields(rest[:i])
+			if len(f) < 3 || f[1] != "serves" {
+				return nil, perr(g, fmt.Errorf("tag: expected 'tag pkg.Type.Field serves Cxx = <tag>'"))
+			}
+			sf.Tags = append(sf.Tags, TagDecl{Path: f[0], Serves: f[2:], Want: strings.Join(strings.Fields(rest[i+1:]), " "), Line: g.line})
 			cur = nil
 		case "axiom", "lemma":
 			label, r := stripLabel(rest)
